@@ -21,3 +21,4 @@ PROPERTY_RULES["C03"] = ["r01_leak", "r08_index", "r09_bounds", "r12_sprintf", "
 PROPERTY_RULES["C09"] = ["r07_uniontag", "r06_uninit", "r09_bounds", "r01_leak", "r15_fail", "r15c_ignored"]
 PROPERTY_RULES["C04"] = ["r34c_alias"]
 PROPERTY_RULES["C08"] = ["r34a_unit"]
+PROPERTY_RULES["C06"] = ["r29_fields", "r12_sprintf"]
